@@ -58,6 +58,7 @@ type c14SpendWorld struct {
 	registered bool
 	spent      bool // reference: the client has to believe "spent"
 	done       bool
+	reorgSeen  bool // a Reorg was delivered earlier
 }
 
 func (w *c14SpendWorld) tipOff() int { return len(w.blocks) }
@@ -224,11 +225,14 @@ func (w *c14SpendWorld) check(kind int, disconnectedIncl bool) {
 			if kind == c14KindRegister {
 				vReach("spend-at-registration")
 			}
-			if kind == c14KindConnect && w.maxTip > w.tipOff() {
-				vReach("spend-during-reorg")
+			if w.reorgSeen {
+				vReach("spend-again-after-reorg")
 			}
 		}
 		nRe := w.readReorg()
+		if nRe > 0 {
+			w.reorgSeen = true
+		}
 		wantRe := 0
 		if disconnectedIncl && before {
 			wantRe = 1
@@ -242,7 +246,7 @@ func (w *c14SpendWorld) check(kind int, disconnectedIncl bool) {
 			vAssert(nDone == 1 && mature && !w.done, "Done delivered although the spending block is not exactly at the reorg safety limit")
 			w.done = true
 		} else {
-			vAssert(!mature, "spending block reached the reorg safety limit but Done was not delivered")
+			vAssert(w.done || !mature, "spending block reached the reorg safety limit but Done was not delivered")
 		}
 	}
 
